@@ -171,8 +171,9 @@ func checkC20(c *Ctx) {
 	c.explanation = "Static decision by a must-lockset analysis (locks abstracted by mutex field, defer-aware, entry locksets intersected over static call sites, synchronous callbacks inherit the caller's lockset, goroutines/escaping functions start empty) that every access to a field of the frozen guarded-by table — Scheme's handler tables and dkgRunning, TBLS/TPS contribution maps and counters, Box's three maps, storedMessages' buffer, counters and lastUsed — holds its lock in a sufficient mode; exemptions are per function with the ordering rule that justifies them (object still unpublished: Init/SetShareData happen before the handler is registered, which is itself decided here; sync.Once body with every method calling it first). Further: the Box epoch counters are touched only through sync/atomic; Member's and topicPeerView's state fields are sync.Map/channels and their config fields are never written after construction; the RBC instance is serialised by the wrapper chain (C02.V3). Not decided: races on memory outside these types (loggers, tss-lib), completeness of the frozen table beyond the check that every field of these structs is classified."
 	c.notDecided = "memory outside the listed types; the Go memory model is not explored dynamically"
 	c.Assume("sync.Mutex/RWMutex/Once/Map and sync/atomic semantics; a lock instance protects the fields of the same struct instance")
-	const L1, O1, A1, T1 = "C20.L1", "C20.O1", "C20.A1", "C20.T1"
+	const L1, L2, O1, A1, T1 = "C20.L1", "C20.L2", "C20.O1", "C20.A1", "C20.T1"
 	c.Rule(L1, "guarded-by discipline", 60)
+	c.Rule(L2, "serialising wrappers enter the wrapped (unsynchronised) instance only with their lock held exclusively", 2)
 	c.Rule(O1, "backend Init/SetShareData happen before the handler is published", 3)
 	c.Rule(A1, "epoch counters only through sync/atomic", 4)
 	c.Rule(T1, "every field of the stateful structs is classified; Member state is sync.Map/chan, config never written", 8)
@@ -183,6 +184,7 @@ func checkC20(c *Ctx) {
 			{t.fSyncTab, t.fLock, true}, {t.fRBCTab, t.fLock, true}, {t.fClsTab, t.fLock, true}, {t.fDKGRunning, t.fLock, true},
 		}
 		checkGuardedBy(c, L1, t.m, t.la, t.fns, specs, nil)
+		ruleSerialisingWrappers(c, L2, t)
 		classifyFields(c, T1, t.m, PkgThreshold, "Scheme", map[string]string{
 			"dkgRunning": "guarded", "syncsInProgress": "guarded", "rbcInProgress": "guarded", "messageClassifiers": "guarded",
 			"setupOnce": "sync", "lock": "sync",
@@ -478,4 +480,72 @@ func classifyFields(c *Ctx, rule string, m *Module, pkg, typ string, classes map
 	short := pkg[strings.LastIndex(pkg, "/")+1:] + "." + typ
 	c.Check(len(missing) == 0, rule, short, "all fields classified", m.Pos(nt.Obj().Pos()), fmt.Sprintf("%d fields", st.NumFields()),
 		"the struct has mutable field(s) "+strings.Join(missing, ", ")+" that the frozen guarded-by table does not classify (guarded / config / init / atomic): its accesses are not checked")
+}
+
+// ruleSerialisingWrappers: the reliable-broadcast receiver and the synchroniser have no lock of their
+// own; package threshold wraps each instance in a struct holding a mutex plus the wrapped function /
+// interface.  Every method of such a wrapper must hold that mutex EXCLUSIVELY around every call into
+// the wrapped value (a read lock admits two dispatchers at once; the wrapped code writes its maps even
+// on paths that look read-only, e.g. lazy initialisation).
+func ruleSerialisingWrappers(c *Ctx, rule string, t *thrModel) {
+	pkg := t.m.Pkg(PkgThreshold)
+	if pkg == nil {
+		return
+	}
+	isMutex := func(ty types.Type) bool {
+		return isNamed(ty, "sync", "Mutex") || isNamed(ty, "sync", "RWMutex")
+	}
+	scope := pkg.Types.Scope()
+	for _, name := range scope.Names() {
+		tn, ok := scope.Lookup(name).(*types.TypeName)
+		if !ok {
+			continue
+		}
+		st, ok := tn.Type().Underlying().(*types.Struct)
+		if !ok || st.NumFields() != 2 {
+			continue
+		}
+		var lock, inner *types.Var
+		for i := 0; i < 2; i++ {
+			f := st.Field(i)
+			switch f.Type().Underlying().(type) {
+			case *types.Signature, *types.Interface:
+				inner = f
+			default:
+				if isMutex(f.Type()) {
+					lock = f
+				}
+			}
+		}
+		if lock == nil || inner == nil {
+			continue
+		}
+		n := 0
+		for _, fn := range t.fns {
+			if fn.Signature.Recv() == nil || namedOf(fn.Signature.Recv().Type()) == nil || namedOf(fn.Signature.Recv().Type()).Obj() != tn {
+				continue
+			}
+			for _, in := range instrsOf(fn) {
+				ci, ok := in.(ssa.CallInstruction)
+				if !ok {
+					continue
+				}
+				cc := ci.Common()
+				through := callsFuncField(cc, inner)
+				if !through && cc.IsInvoke() && isLoadOfField(cc.Value, inner) {
+					through = true
+				}
+				if !through {
+					continue
+				}
+				n++
+				c.Check(t.la.Holds(in, lock, LockW), rule, FuncName(fn), "call into the wrapped "+inner.Name(), t.m.Pos(in.Pos()),
+					"must-lockset "+t.la.At(in).String(),
+					"the wrapped instance (which has no lock of its own) is entered without holding "+name+"."+lock.Name()+" exclusively: two dispatcher goroutines can run inside it at once and race on its maps")
+			}
+		}
+		if n == 0 {
+			c.Bad(rule, name, "call into the wrapped "+inner.Name(), t.m.Pos(tn.Pos()), "the wrapper never calls the wrapped value")
+		}
+	}
 }
